@@ -450,10 +450,12 @@ proof fn lemma_count(ev: Seq<anyhow::Result<PartialBlock>>, k: int)
 
 /// What the recursive definitions mean (proved, nothing assumed). For a prefix that is not in
 /// error: the open stack holds start tags in file order; every pair is (start tag, later end tag);
-/// no start tag is used twice or both used and open; every start tag seen is open or paired and
-/// every end tag seen is paired. Together with `lemma_count` this is "exactly one block per
-/// start tag" when the stack is empty at the end.
-spec fn pairing_wf(ev: Seq<anyhow::Result<PartialBlock>>, k: int) -> bool {
+/// no start tag is used twice or both used and open (`pairing_struct`); every start tag seen is
+/// open or paired and every end tag seen is paired (`pairing_cover`). Together with `lemma_count`
+/// this is "exactly one block per start tag" when the stack is empty at the end.
+/// (opaque: P1 only passes the two facts on; their quantifiers are not needed in its proof.)
+#[verifier::opaque]
+spec fn pairing_struct(ev: Seq<anyhow::Result<PartialBlock>>, k: int) -> bool {
     let st = stack_after(ev, k)->Some_0;
     let ps = pairs_after(ev, k);
     &&& forall|x: int| 0 <= x < st.len() ==> 0 <= #[trigger] st[x] < k && is_start(ev, st[x])
@@ -461,18 +463,57 @@ spec fn pairing_wf(ev: Seq<anyhow::Result<PartialBlock>>, k: int) -> bool {
     &&& forall|a: int| 0 <= a < ps.len() ==> 0 <= (#[trigger] ps[a]).0 < ps[a].1 < k && is_start(ev, ps[a].0) && is_end(ev, ps[a].1)
     &&& forall|a: int, b: int| 0 <= a < b < ps.len() ==> (#[trigger] ps[a]).0 != (#[trigger] ps[b]).0 && ps[a].1 < ps[b].1
     &&& forall|a: int, x: int| 0 <= a < ps.len() && 0 <= x < st.len() ==> (#[trigger] ps[a]).0 != #[trigger] st[x]
-    &&& forall|i: int| 0 <= i < k && #[trigger] is_start(ev, i) ==>
-            (exists|x: int| 0 <= x < st.len() && st[x] == i) || (exists|a: int| 0 <= a < ps.len() && ps[a].0 == i)
-    &&& forall|j: int| 0 <= j < k && #[trigger] is_end(ev, j) ==> exists|a: int| 0 <= a < ps.len() && ps[a].1 == j
 }
 
-proof fn lemma_pairing_wf(ev: Seq<anyhow::Result<PartialBlock>>, k: int)
+spec fn start_is_open(ev: Seq<anyhow::Result<PartialBlock>>, k: int, i: int) -> bool {
+    exists|x: int| 0 <= x < stack_after(ev, k)->Some_0.len() && stack_after(ev, k)->Some_0[x] == i
+}
+spec fn start_is_paired(ev: Seq<anyhow::Result<PartialBlock>>, k: int, i: int) -> bool {
+    exists|a: int| 0 <= a < pairs_after(ev, k).len() && pairs_after(ev, k)[a].0 == i
+}
+spec fn end_is_paired(ev: Seq<anyhow::Result<PartialBlock>>, k: int, j: int) -> bool {
+    exists|a: int| 0 <= a < pairs_after(ev, k).len() && pairs_after(ev, k)[a].1 == j
+}
+
+#[verifier::opaque]
+spec fn pairing_cover(ev: Seq<anyhow::Result<PartialBlock>>, k: int) -> bool {
+    &&& forall|i: int| 0 <= i < k && #[trigger] is_start(ev, i) ==> start_is_open(ev, k, i) || start_is_paired(ev, k, i)
+    &&& forall|j: int| 0 <= j < k && #[trigger] is_end(ev, j) ==> end_is_paired(ev, k, j)
+}
+
+spec fn pairing_wf(ev: Seq<anyhow::Result<PartialBlock>>, k: int) -> bool {
+    pairing_struct(ev, k) && pairing_cover(ev, k)
+}
+
+proof fn lemma_pairing_struct(ev: Seq<anyhow::Result<PartialBlock>>, k: int)
     requires 0 <= k <= ev.len(), stack_after(ev, k) is Some,
-    ensures pairing_wf(ev, k),
+    ensures pairing_struct(ev, k),
     decreases k
 {
+    reveal(pairing_struct);
     if k > 0 {
-        lemma_pairing_wf(ev, k - 1);
+        lemma_pairing_struct(ev, k - 1);
+        let st0 = stack_after(ev, k - 1)->Some_0;
+        let ps0 = pairs_after(ev, k - 1);
+        if is_start(ev, k - 1) {
+            assert(stack_after(ev, k)->Some_0 == st0.push(k - 1));
+            assert(pairs_after(ev, k) == ps0);
+        } else {
+            assert(is_end(ev, k - 1) && st0.len() > 0);
+            assert(stack_after(ev, k)->Some_0 == st0.drop_last());
+            assert(pairs_after(ev, k) == ps0.push((st0.last(), k - 1)));
+        }
+    }
+}
+
+proof fn lemma_pairing_cover(ev: Seq<anyhow::Result<PartialBlock>>, k: int)
+    requires 0 <= k <= ev.len(), stack_after(ev, k) is Some,
+    ensures pairing_cover(ev, k),
+    decreases k
+{
+    reveal(pairing_cover);
+    if k > 0 {
+        lemma_pairing_cover(ev, k - 1);
         let st0 = stack_after(ev, k - 1)->Some_0;
         let ps0 = pairs_after(ev, k - 1);
         let st = stack_after(ev, k)->Some_0;
@@ -481,30 +522,37 @@ proof fn lemma_pairing_wf(ev: Seq<anyhow::Result<PartialBlock>>, k: int)
             assert(st == st0.push(k - 1));
             assert(ps == ps0);
             assert forall|i: int| 0 <= i < k && #[trigger] is_start(ev, i) implies
-                (exists|x: int| 0 <= x < st.len() && st[x] == i) || (exists|a: int| 0 <= a < ps.len() && ps[a].0 == i) by {
+                start_is_open(ev, k, i) || start_is_paired(ev, k, i) by {
                 if i == k - 1 {
                     assert(st[st.len() - 1] == i);
-                } else if exists|x: int| 0 <= x < st0.len() && st0[x] == i {
+                } else if start_is_open(ev, k - 1, i) {
                     let x = choose|x: int| 0 <= x < st0.len() && st0[x] == i;
                     assert(st[x] == i);
+                } else {
+                    assert(start_is_paired(ev, k - 1, i));
                 }
+            }
+            assert forall|j: int| 0 <= j < k && #[trigger] is_end(ev, j) implies end_is_paired(ev, k, j) by {
+                assert(end_is_paired(ev, k - 1, j));
             }
         } else {
             assert(is_end(ev, k - 1) && st0.len() > 0);
             assert(st == st0.drop_last());
             assert(ps == ps0.push((st0.last(), k - 1)));
             assert forall|i: int| 0 <= i < k && #[trigger] is_start(ev, i) implies
-                (exists|x: int| 0 <= x < st.len() && st[x] == i) || (exists|a: int| 0 <= a < ps.len() && ps[a].0 == i) by {
-                if exists|x: int| 0 <= x < st0.len() && st0[x] == i {
+                start_is_open(ev, k, i) || start_is_paired(ev, k, i) by {
+                if start_is_open(ev, k - 1, i) {
                     let x = choose|x: int| 0 <= x < st0.len() && st0[x] == i;
                     if x == st0.len() - 1 { assert(ps[ps.len() - 1].0 == i); } else { assert(st[x] == i); }
                 } else {
+                    assert(start_is_paired(ev, k - 1, i));
                     let a = choose|a: int| 0 <= a < ps0.len() && ps0[a].0 == i;
                     assert(ps[a].0 == i);
                 }
             }
-            assert forall|j: int| 0 <= j < k && #[trigger] is_end(ev, j) implies exists|a: int| 0 <= a < ps.len() && ps[a].1 == j by {
+            assert forall|j: int| 0 <= j < k && #[trigger] is_end(ev, j) implies end_is_paired(ev, k, j) by {
                 if j == k - 1 { assert(ps[ps.len() - 1].1 == j); } else {
+                    assert(end_is_paired(ev, k - 1, j));
                     let a = choose|a: int| 0 <= a < ps0.len() && ps0[a].1 == j;
                     assert(ps[a].1 == j);
                 }
@@ -565,7 +613,8 @@ None => { break; } } }
         assert(stack_after(ev, k)->Some_0 =~= Seq::<int>::empty()); // [P1.proof.no_open_block_left]
         lemma_ok_prefix(ev, k);
         lemma_count(ev, k);
-        lemma_pairing_wf(ev, k);
+        lemma_pairing_struct(ev, k);
+        lemma_pairing_cover(ev, k);
     }
 //@edit rule=ghost before=<<return Err(>> nth=0 of=2
                     proof { lemma_error_is_sticky(ev, k, ev.len() as int); }
